@@ -14,6 +14,6 @@ if ok:
     for f in ('patch.diff', 'demo.py'):
         shutil.copy(os.path.join(out, f), d)
     meta = json.load(open(os.path.join(out, 'meta.json')))
-    meta.update(property=pid, confirmed_by_me=conf, detection=caught, round=5,
+    meta.update(property=pid, confirmed_by_me=conf, detection=caught, round=int(os.environ.get('SEED_ROUND', '5')),
                 what_i_ran='tools/confirm_seed.py (fresh worktree of /repo HEAD + patch, scratch build, demo on both trees, full suite with the change) and tools/try_patch.sh patch.diff %s (isolated run of ./check on the patched worktree)' % pid)
     json.dump(meta, open(os.path.join(d, 'meta.json'), 'w'), indent=1)
